@@ -358,6 +358,14 @@ def r5_helper(prog, rep: Report, cf: CacheFacts, helper: Func, count_field: str)
                     rec(prefix + [c_])
             rec([])
         return out
+    identity_noop = set()
+    for nm_, m_ in lf.lst.methods.items():
+        if len(m_.params) == 3:
+            body_ = [st for st in m_.node.body if not (isinstance(st, ast.Expr) and isinstance(st.value, ast.Constant))]
+            if body_ and isinstance(body_[0], ast.If) and isinstance(body_[0].test, ast.Compare) and isinstance(body_[0].test.ops[0], ast.Is) \
+                    and {src(body_[0].test.left), src(body_[0].test.comparators[0])} == {m_.params[1], m_.params[2]} \
+                    and len(body_[0].body) == 1 and isinstance(body_[0].body[0], ast.Return) and body_[0].body[0].value is None:
+                identity_noop.add(nm_)
     strict_bad, loose_bad, unrec, old = [], [], [], False
     n_worlds = 0
     for w in worlds():
@@ -385,6 +393,8 @@ def r5_helper(prog, rep: Report, cf: CacheFacts, helper: Func, count_field: str)
         def ok_for(k, mv):
             if mv and mv[0] == "raise":
                 return False
+            # a move of the node behind itself is no move when the list operation returns at once for `node is after`
+            mv = tuple(m for m in mv if not (m[1] in identity_noop and len(m[2]) == 2 and m[2][0] == m[2][1] == 0))
             if k == 0:
                 return mv == ()
             return len(mv) == 1 and mv[0][1] == "move_after" and mv[0][2] == (0, k)
